@@ -28,6 +28,95 @@ CHECKS = {
    design='6 C01'),
 }
 
+
+CHECKS.update({
+ 'C02': dict(
+   text='Theorems: even = n equal-width strictly increasing classes ending exactly at the effective maximum lag; '
+        'NumPy linear-interpolation quantile is monotone in the level and stays within the data, hence uniform edges '
+        'are n non-decreasing i/n quantiles of the distances within the effective maximum lag, none above it; '
+        'mid-points of [0]+sorted centres (k-means/ward) are non-decreasing and bounded; maxlag resolution cases and '
+        'effMax <= largest distance. Tie: correspondence of Variogram.bins/n_lags/maxlag and skgstat.binning.* with '
+        'the executable model for every method and maxlag form; clustering centres / NumPy bin rules re-run as contracts.',
+   note='scikit-learn KMeans/AgglomerativeClustering and numpy.histogram_bin_edges are contracts (re-run with the same '
+        'arguments, not proved). Known finding D9 (sparse storage ends even edges at the largest stored distance).',
+   technique='Lean 4 proof (floor/interpolation lemmas, list induction) + exact-rational correspondence', design='6 C02'),
+ 'C03': dict(
+   text='Theorems about the definitions generated from models.py on every run: for spherical, exponential, gaussian, '
+        'cubic, stable (r>0, c0>=0, s>0): value b at lag 0, monotone in the lag, within [b, b+c0], >= 95 % of the sill '
+        'at the effective range (exactly the sill at/beyond it for spherical and cubic), Tendsto b+c0 at infinity, '
+        'nugget additivity; array call = map; argument slices of +-sums tile the coefficient vector; two-component sum = '
+        'components + one nugget. Matern: zero-lag clause proved, the analytic clauses reduced to explicit hypotheses '
+        'about x^s K_s(x) (partial). Tie: translator (a changed constant/comparison breaks a named theorem) + Float/Rat '
+        'twins of the generated definitions executed against the Python functions + numeric oracle of every clause.',
+   note='Mathlib has no modified Bessel functions: Matern monotonicity/bounds/90 % are validated numerically only. '
+        'Rounding is not modelled (numeric oracle uses slack 1e-9*(b+c0)).',
+   technique='Lean 4 proof over the reals of generated definitions (translator tie)', design='6 C03'),
+ 'C07': dict(
+   text='Theorems: neighbour selection returns min(N, |in range|) candidates within range, none farther than a rejected '
+        'one (stable insertion sort = Mathlib insertionSort: sorted permutation); assembled system has the documented '
+        'shape; a returned result carries an exact certificate A x = b with estimate = w.v and variance = w.g0 + mu; '
+        'per-call bookkeeping for every outcome list: i-th variance belongs to i-th estimate, NaN exactly for failed '
+        'targets, counters = numbers of failures (induction over the target list). Tie: per-target correspondence - Lean '
+        'selects neighbours on the exact float distances and solves the system exactly over Q; z, sigma^2, NaN pattern and '
+        'counters are compared with OrdinaryKriging.transform.',
+   note='LAPACK solves are compared numerically (1e-12*cond); semivariances are taken from the implementation fitted '
+        'model; mode="estimate" is outside the property.',
+   technique='Lean 4 proof (sorting/permutation lemmas, fold invariant) + exact rational re-solution', design='6 C07'),
+ 'C08': dict(
+   text='Theorems over an arbitrary field, any neighbourhood size, for ANY solution of the ordinary-kriging equations: '
+        'weights sum to one; shift of the observations shifts the estimate; constant field reproduced; scaling the '
+        'semivariances by k^2 keeps weights and scales the variance by k^2; exact interpolation under uniqueness and '
+        'gamma(0)=0; variance = 2 sum(w g0) - sum sum(w w G), hence non-negative given conditional negative definiteness. '
+        'Tie: the system the code assembles is tied to the model in C07; metamorphic runs on the implementation check the '
+        'conclusions (shift, scale, constant, exactness at observations, sign).',
+   note='Conditional negative definiteness of the named models (Euclidean distance) is a hypothesis, not proved.',
+   technique='Lean 4 proof (Finset algebra over a field) + metamorphic correspondence', design='6 C08'),
+ 'C09': dict(
+   text='Theorems: one transform call over any target list is the pointwise map of the per-target computation (state is '
+        're-initialised per call), hence independent of batch composition and ordering; sparse and dense neighbour search '
+        'coincide when the stored row entries are the in-range entries; all solutions of an invertible system coincide '
+        '(any solver). Tie: runs over solver x sparse x array/MetricSpace targets x partitions/permutations x repeated calls.',
+   note='Agreement of the three LAPACK paths is numeric (1e-7 relative).',
+   technique='Lean 4 proof (fold = map, Matrix uniqueness) + route-differential correspondence', design='6 C09'),
+ 'C10': dict(
+   text='Theorems: for every relabelling of the points the per-pair (distance, difference) records are a permutation of '
+        'the original ones; Matheron, Dowd, Genton are permutation-invariant; even/uniform edges depend on the distance '
+        'multiset only => edges, counts, semivariances unchanged; shift of values leaves differences unchanged; scaling '
+        'values by k scales the three estimators by k^2; scaling coordinates by s>0 scales even/uniform edges by s and keeps '
+        'every pair in its class; rational rigid motions preserve squared distances. Tie: C01 pipeline theorem + metamorphic '
+        'runs on the implementation.',
+   note='Cressie-Hawkins scaling/permutation (needs sqrt) and clustering / rule-based binnings under inexact transforms are '
+        'validated only. Transformed distances within 1e-9 of an edge are excluded as the property allows.',
+   technique='Lean 4 proof (List.Perm, bijection on index pairs, homogeneity) + metamorphic correspondence', design='6 C10'),
+ 'C11': dict(
+   text='Theorems: if the stored records are any enumeration of the records within the truncation distance M then counts and '
+        'semivariances of every class with edge <= M coincide with the dense ones; even/uniform edges coincide when '
+        'M >= largest distance or M is an occurring distance (partial); proved counter-examples for D9 (M between '
+        'distances) and D10 (lost zero distances, repaired). Tie: three storage routes on identical data, model on both '
+        'record sets.',
+   note='Known finding D9. cKDTree boundary decisions within rounding distance of max_dist are outside the property.',
+   technique='Lean 4 proof (filter/permutation lemmas) + storage-differential correspondence', design='6 C11'),
+ 'C16': dict(
+   text='Theorems: k-th cross difference is |dz1|*|dz2| of the k-th pair; crossDiffs is symmetric in the two variables, hence '
+        'table entry (i,j) = (j,i) for every estimator/edges; the diagonal is the ordinary variogram of the column. Tie: '
+        'pairwise_diffs/experimental vs model, cross_variograms table symmetry/diagonal on the implementation.',
+   note='Directional base class is exercised once DirectionalVariogram can be constructed.',
+   technique='Lean 4 proof (zipWith commutativity, index lemmas) + correspondence', design='6 C16'),
+ 'C17': dict(
+   text='Theorems: np.delete keeps coordinates and values aligned, removes exactly the held-out point, which is not among '
+        'the remaining data; mse/mae scores depend on the estimable points only; counter-example for the pre-repair MAE '
+        '(D3). Tie: the seeded subset is reproduced, every leave-one-out residual recomputed through the real '
+        'OrdinaryKriging on the reduced set (a sample through the exact C07 model), scores through the model.',
+   note='NumPy RNG stream is external (reproducibility observed).',
+   technique='Lean 4 proof (eraseIdx lemmas) + correspondence', design='6 C17'),
+ 'C20': dict(
+   text='Theorems: squareform is symmetric with zero diagonal and holds the pair distance; neighbour search = N nearest '
+        'among the in-range candidates (as C07); identical for sparse and dense rows; the double index remap of pair '
+        'sampling is injective for samples without replacement. Tie: MetricSpace.dists / diagonal / find_closest / '
+        'ProbabalisticMetricSpace vs brute force and the model.',
+   note='cKDTree and the NumPy RNG are external.',
+   technique='Lean 4 proof (sorting/permutation, Nodup index lemmas) + correspondence', design='6 C20'),
+})
 NOT_YET = {}
 ALL = ['C%02d' % i for i in range(1, 21)]
 
